@@ -76,6 +76,14 @@ pub struct Block {
 
 /// `v`: the amount the delegated code tries to move out of A.
 pub fn block(debit: Debit, variant: Variant, bal: Bal, k: usize, spec: SpecId) -> Option<Block> {
+    block_ext(debit, variant, bal, k, spec, false)
+}
+
+/// `replayed`: the block starts with two valid transfers and a nonce-too-low transaction of an
+/// unrelated sender (the ordered commit refuses it, so the parallel path replays the suffix
+/// sequentially from a committed prefix of length 2), followed by an *earlier* own transaction of A:
+/// when the debit is judged, that transaction is in the past and must not count as future cost.
+pub fn block_ext(debit: Debit, variant: Variant, bal: Bal, k: usize, spec: SpecId, replayed: bool) -> Option<Block> {
     let v: u128 = 50_000;
     let credit: u128 = if variant == Variant::CreditBefore { 7_000 } else { 0 };
     let s: u128 = C * k as u128; // sum of A's later maximum costs
@@ -99,7 +107,7 @@ pub fn block(debit: Debit, variant: Variant, bal: Bal, k: usize, spec: SpecId) -
     let mut db = MemDb::default();
     db.fund(eoa(0), U256::from(10 * ETHER), 0);
     db.fund(eoa(1), U256::from(10 * ETHER), 0);
-    db.fund(a(), U256::from(if funded_later { 0 } else { b0 }), 0);
+    db.fund(a(), U256::from(if funded_later { 0 } else if replayed { b0 + C } else { b0 }), 0);
     db.deploy(contract(SPENDER), kit::spender());
     db.deploy(contract(ENDOWER), kit::endower());
     db.deploy(contract(BOMB), kit::bomb());
@@ -137,6 +145,13 @@ pub fn block(debit: Debit, variant: Variant, bal: Bal, k: usize, spec: SpecId) -
         Debit::OwnTopLevelValue => Default::default(),
     };
     let mut a_nonce = 0u64;
+    if replayed {
+        txs.push(("pad(e1>e0)#0".to_string(), transfer(eoa(1), 0, eoa(0), 1)));
+        txs.push(("pad(e1>e0)#1".to_string(), transfer(eoa(1), 1, eoa(0), 1)));
+        txs.push(("stale-nonce(e1>e0)".to_string(), transfer(eoa(1), 0, eoa(0), 1)));
+        txs.push(("A>e1 [earlier own tx]".to_string(), transfer(a(), a_nonce, eoa(1), LATER_VALUE)));
+        a_nonce += 1;
+    }
     let debit_tx = txs.len();
     match debit {
         Debit::OwnTopLevelValue => {
@@ -180,7 +195,7 @@ pub fn block(debit: Debit, variant: Variant, bal: Bal, k: usize, spec: SpecId) -
     if matches!(debit, Debit::CallValue | Debit::CreateEndowment) && p < v {
         return None;
     }
-    let name = format!("c13:{debit:?}:{variant:?}:{bal:?}:k{k}");
+    let name = format!("c13:{debit:?}:{variant:?}:{bal:?}:k{k}{}", if replayed { ":replayed" } else { "" });
     let case = Case::new(name, spec, db, txs);
     let fundable = b0 >= s + own_tx_cost;
     Some(Block { case, debit_tx, violation, later, a_balance_if_violation: U256::from(b0.saturating_sub(C_actual(k))), fundable })
@@ -302,6 +317,10 @@ pub fn blocks(spec: SpecId) -> Vec<Block> {
             for bal in [Bal::Ample, Bal::Exact, Bal::ExactMinus1, Bal::BelowFutureCost] {
                 for k in 0..=2 {
                     v.extend(block(debit, variant, bal, k, spec));
+                    // mid-block sequential replay (commit prefix > 0) with an earlier own transaction
+                    if matches!(variant, Variant::Plain | Variant::CreditBefore) && matches!(debit, Debit::CallValue | Debit::CreateEndowment | Debit::SelfDestruct) {
+                        v.extend(block_ext(debit, variant, bal, k, spec, true));
+                    }
                 }
             }
         }
